@@ -30,7 +30,7 @@ PROBES = ["stage_built", "stage_initialized", "stage_paused", "stage_finished", 
 
 
 def budget(tier):
-    return 2500 if tier == "quick" else 500000
+    return 4000 if tier == "quick" else 500000
 
 
 def gen(rng, tier):
